@@ -92,7 +92,7 @@ inline RefDimacs ref_parse(const std::string &text) {
     bool have_p = false, seen_edge = false, comment_after_edge = false;
     for (auto &l : lines) {
         if (l.empty()) return out("blank line");
-        if (l.size() >= 1000) return out("line too long");
+        if (l.size() > 1022) return out("line too long");   // with its newline the line must fit fgets' 1023 characters
         char c = l[0];
         if (c == 'c' || c == '#') { if (seen_edge) comment_after_edge = true; continue; }
         if (c == 'p') {
